@@ -200,10 +200,19 @@ package loadbalancer
 //@     && (dyntype(lb.strategy, *IPHashStrategy) ==> iphOK(asptr(lb.strategy, *IPHashStrategy)))
 //@     && (dyntype(lb.strategy, *IPHashConsistentStrategy) ==> iphcOK(asptr(lb.strategy, *IPHashConsistentStrategy)))
 
-//@ func (*Backend).healthFlag
-//@   props C02 C12
+// The health test the flag-filtering strategies (weighted round robin, both hash strategies) apply to each
+// backend. C04: once its window has elapsed an ejected backend is eligible again and must actually receive
+// traffic again under every strategy - so the test must admit it as a candidate (ejected(b): flag down with
+// a window on record; every ejection through MarkBackendUnhealthy records one).
+//@ pred ejected(b *Backend) := !b.IsHealthy && b.UnhealthyUntil != TZERO
+//@ pred candidateAt(b *Backend, t Time) := b.IsHealthy || (ejected(b) && t > b.UnhealthyUntil)
+//@ func (*Backend).eligible
+//@   props C02 C12 C04 C05 C06
 //@   requires unlocked(backend.Mutex)
-//@   ensures result == backend.IsHealthy
+//@   ensures flagged_is_a_candidate: backend.IsHealthy ==> result
+//@   ensures elapsed_window_is_a_candidate_again: candidateAt(backend, old(now())) ==> result
+//@   ensures inside_the_window_is_not: result ==> candidateAt(backend, now())
+//@   ensures clock: now() >= old(now())
 
 // ---- client address attribution of the hash strategies (C06): the string that is hashed is a function of
 // exactly three inputs: X-Forwarded-For, X-Real-IP and the peer address - not of path, port, other headers.
@@ -221,15 +230,15 @@ package loadbalancer
 //@   ghost before Write :: hashedKey := ipStr
 //@   ensures hashes_client_key_only: result != nil ==> hashedKey == clientKey(r)
 //@   modifies hashedKey
-//@   ensures member: result != nil ==> inIPH(iph, result) && result.IsHealthy
-//@   ensures nil_only_if_none_flagged: result == nil ==> forall i int :: {iph.backends[i]} 0 <= i && i < len(iph.backends) ==> !iph.backends[i].IsHealthy
+//@   ensures member: result != nil ==> inIPH(iph, result) && candidateAt(result, now())
+//@   ensures nil_only_if_no_candidate: result == nil ==> forall i int :: {iph.backends[i]} 0 <= i && i < len(iph.backends) ==> !candidateAt(iph.backends[i], entry_now())
 //@ loop (*IPHashStrategy).NextBackend #0
 //@   props C02 C06 C12
 //@   invariant idx: -1 <= rangeindex && rangeindex < len(iph.backends)
 //@   invariant pool_kept: iph.backends == old(iph.backends) && (forall i int :: {iph.backends[i]} 0 <= i && i < len(iph.backends) ==> iph.backends[i] == old(iph.backends[i]))
 //@   invariant separate: healthyBackends.base != iph.backends.base && healthyBackends.base != 0 && allocated(healthyBackends.base) && !preexisting(healthyBackends.base)
-//@   invariant sound: forall k int :: {healthyBackends[k]} 0 <= k && k < len(healthyBackends) ==> healthyBackends[k] != nil && healthyBackends[k].IsHealthy && inIPH(iph, healthyBackends[k])
-//@   invariant complete: forall j int :: {iph.backends[j]} 0 <= j && j <= rangeindex && iph.backends[j].IsHealthy ==> len(healthyBackends) > 0
+//@   invariant sound: forall k int :: {healthyBackends[k]} 0 <= k && k < len(healthyBackends) ==> healthyBackends[k] != nil && candidateAt(healthyBackends[k], now()) && inIPH(iph, healthyBackends[k])
+//@   invariant complete: forall j int :: {iph.backends[j]} 0 <= j && j <= rangeindex && candidateAt(iph.backends[j], entry_now()) ==> len(healthyBackends) > 0
 //@   invariant small: len(healthyBackends) <= rangeindex + 1
 //@   invariant others_kept: forall x int :: {backing(x, []*Backend)} preexisting(x) ==> backing(x, []*Backend) == old(backing(x, []*Backend))
 //@   decreases len(iph.backends) - rangeindex
@@ -241,15 +250,15 @@ package loadbalancer
 //@   ghost before Write :: hashedKey := ipStr
 //@   ensures hashes_client_key_only: result != nil ==> hashedKey == clientKey(r)
 //@   modifies hashedKey
-//@   ensures member: result != nil ==> inIPHC(iph, result) && result.IsHealthy
-//@   ensures nil_only_if_none_flagged: result == nil ==> forall i int :: {iph.backends[i]} 0 <= i && i < len(iph.backends) ==> !iph.backends[i].IsHealthy
+//@   ensures member: result != nil ==> inIPHC(iph, result) && candidateAt(result, now())
+//@   ensures nil_only_if_no_candidate: result == nil ==> forall i int :: {iph.backends[i]} 0 <= i && i < len(iph.backends) ==> !candidateAt(iph.backends[i], entry_now())
 //@ loop (*IPHashConsistentStrategy).NextBackend #0
 //@   props C02 C06 C12
 //@   invariant idx: -1 <= rangeindex && rangeindex < len(iph.backends)
 //@   invariant pool_kept: iph.backends == old(iph.backends) && (forall i int :: {iph.backends[i]} 0 <= i && i < len(iph.backends) ==> iph.backends[i] == old(iph.backends[i]))
 //@   invariant separate: healthyBackends.base != iph.backends.base && healthyBackends.base != 0 && allocated(healthyBackends.base) && !preexisting(healthyBackends.base)
-//@   invariant sound: forall k int :: {healthyBackends[k]} 0 <= k && k < len(healthyBackends) ==> healthyBackends[k] != nil && healthyBackends[k].IsHealthy && inIPHC(iph, healthyBackends[k])
-//@   invariant complete: forall j int :: {iph.backends[j]} 0 <= j && j <= rangeindex && iph.backends[j].IsHealthy ==> len(healthyBackends) > 0
+//@   invariant sound: forall k int :: {healthyBackends[k]} 0 <= k && k < len(healthyBackends) ==> healthyBackends[k] != nil && candidateAt(healthyBackends[k], now()) && inIPHC(iph, healthyBackends[k])
+//@   invariant complete: forall j int :: {iph.backends[j]} 0 <= j && j <= rangeindex && candidateAt(iph.backends[j], entry_now()) ==> len(healthyBackends) > 0
 //@   invariant small: len(healthyBackends) <= rangeindex + 1
 //@   invariant others_kept: forall x int :: {backing(x, []*Backend)} preexisting(x) ==> backing(x, []*Backend) == old(backing(x, []*Backend))
 //@   decreases len(iph.backends) - rangeindex
@@ -361,20 +370,23 @@ package loadbalancer
 //@ func (*WeightedRoundRobinStrategy).NextBackend
 //@   props C02 C05 C12
 //@   requires unlocked(wrr.mutex) && wrrOK(wrr) && noBackendLocks()
-//@   ensures member: result != nil ==> inWRR(wrr, result) && result.IsHealthy
-//@   ensures nil_only_if_none_flagged: result == nil ==> forall i int :: {wrr.backends[i]} 0 <= i && i < len(wrr.backends) ==> !wrr.backends[i].backend.IsHealthy
-//@   ensures ejected_earn_no_credit: forall i int :: {wrr.backends[i]} 0 <= i && i < len(wrr.backends) && !wrr.backends[i].backend.IsHealthy
+//@   ensures member: result != nil ==> inWRR(wrr, result) && candidateAt(result, now())
+//@   ensures nil_only_if_no_candidate: result == nil ==> forall i int :: {wrr.backends[i]} 0 <= i && i < len(wrr.backends) ==> !candidateAt(wrr.backends[i].backend, entry_now())
+//@   ensures ejected_earn_no_credit: forall i int :: {wrr.backends[i]} 0 <= i && i < len(wrr.backends) && !candidateAt(wrr.backends[i].backend, now())
 //@             ==> wrr.backends[i].currentWeight == old(wrr.backends[i].currentWeight)
-//@   ensures passed_over_earn_their_weight: forall i int :: {wrr.backends[i]} 0 <= i && i < len(wrr.backends) && wrr.backends[i].backend.IsHealthy && wrr.backends[i].backend != result
+//@   ensures passed_over_earn_their_weight: forall i int :: {wrr.backends[i]} 0 <= i && i < len(wrr.backends) && candidateAt(wrr.backends[i].backend, entry_now()) && wrr.backends[i].backend != result
 //@             ==> wrr.backends[i].currentWeight == wrap64(old(wrr.backends[i].currentWeight) + wrr.backends[i].backend.Weight)
 //@   modifies weightedBackend.currentWeight
 //@ loop (*WeightedRoundRobinStrategy).NextBackend #0
 //@   props C02 C05 C12
 //@   invariant idx: -1 <= rangeindex && rangeindex < len(wrr.backends)
-//@   invariant best_ok: best != nil ==> best.backend != nil && best.backend.IsHealthy && (exists k int :: {wrr.backends[k]} 0 <= k && k <= rangeindex && wrr.backends[k] == best)
-//@   invariant none_yet: best == nil ==> forall k int :: {wrr.backends[k]} 0 <= k && k <= rangeindex ==> !wrr.backends[k].backend.IsHealthy
-//@   invariant credit: forall k int :: {wrr.backends[k]} 0 <= k && k < len(wrr.backends) ==> wrr.backends[k].currentWeight ==
-//@             (k <= rangeindex && wrr.backends[k].backend.IsHealthy ? wrap64(old(wrr.backends[k].currentWeight) + wrr.backends[k].backend.Weight) : old(wrr.backends[k].currentWeight))
+//@   invariant best_ok: best != nil ==> best.backend != nil && candidateAt(best.backend, now()) && (exists k int :: {wrr.backends[k]} 0 <= k && k <= rangeindex && wrr.backends[k] == best)
+//@   invariant none_yet: best == nil ==> forall k int :: {wrr.backends[k]} 0 <= k && k <= rangeindex ==> !candidateAt(wrr.backends[k].backend, entry_now())
+//@   invariant credit: forall k int :: {wrr.backends[k]} 0 <= k && k < len(wrr.backends) ==>
+//@             (wrr.backends[k].currentWeight == old(wrr.backends[k].currentWeight) || (k <= rangeindex && wrr.backends[k].currentWeight == wrap64(old(wrr.backends[k].currentWeight) + wrr.backends[k].backend.Weight)))
+//@             && (k <= rangeindex && candidateAt(wrr.backends[k].backend, entry_now()) ==> wrr.backends[k].currentWeight == wrap64(old(wrr.backends[k].currentWeight) + wrr.backends[k].backend.Weight))
+//@             && (!candidateAt(wrr.backends[k].backend, now()) ==> wrr.backends[k].currentWeight == old(wrr.backends[k].currentWeight))
+//@   invariant flags_kept: forall b *Backend :: {b.IsHealthy} b.IsHealthy == old(b.IsHealthy) && b.UnhealthyUntil == old(b.UnhealthyUntil)
 //@   decreases len(wrr.backends) - rangeindex
 
 // ---- request path
